@@ -70,7 +70,9 @@ def check(ctx, replay=None):
             dict(scope="merge", mc=None, stride=1 if th else 4, concs=2, expand=1),
             dict(scope="many", mc=None, stride=2 if th else 12, concs=2, expand=1),
             # condition lists whose arguments are not in ascending order (a compiler that "normalises" them must not do it in the caller's slice)
-            dict(scope="deep", mc=None, stride=1 if th else 3, concs=2, expand=1)]
+            dict(scope="deep", mc=None, stride=1 if th else 3, concs=2, expand=1),
+            # policies that are rejected (unknown names in several spellings, bad indices ...): a refused compilation leaves the caller's policy alone too
+            dict(scope="defects", mc=None, kw=dict(NSys=3), stride=1 if th else 4, concs=3, expand=1)]
     polfam.run_family(ctx, plan, mine={"determinism"}, decision_owner=None)
 
     # 2. sequential replay of the TLC histories
